@@ -15,7 +15,8 @@ import os
 
 _APPLIED: list[str] = []
 _DONE = False
-LOG_COUNTS = {"timeouts": 0, "errors": 0, "executor_warnings": 0, "timeouts_during_assertion_generation": 0}
+LOG_COUNTS = {"timeouts": 0, "errors": 0, "executor_warnings": 0, "timeouts_during_assertion_generation": 0, "filter_results": 0,
+              "filter_results_with_timeout": 0}
 
 
 # ---------------------------------------------------------------------------------------------------------------------
@@ -303,6 +304,12 @@ MINIMIZER_PATCH = [
         2,
     ),
     (
+        "                if isinstance(source, str):\n                    protected.add(source)\n",
+        "                if isinstance(source, str):\n"
+        "                    # the source may be an attribute path (``var_0.balance``): protect its root\n"
+        "                    protected.add(source.split(\".\", 1)[0])\n",
+    ),
+    (
         "                test_case = test_case_chrom.test_case\n                i = 0\n                while i < test_case.size():\n",
         "                test_case = test_case_chrom.test_case\n"
         "                protected = get_assertion_protected_variables(test_case)\n"
@@ -349,6 +356,22 @@ DESERIALIZER_PATCH = [
 ]
 
 
+FILTER_PATCH = [
+    (
+        "                ):\n                    self.__remove_non_holding_assertions(test, result)\n",
+        "                ):\n"
+        "                    if result.timeout:\n"
+        "                        # Nothing was verified in this execution: keep no unverified value assertion.\n"
+        "                        for statement in test.statements():\n"
+        "                            statement.assertions[:] = [\n"
+        "                                a for a in statement.assertions if isinstance(a, ass.ExceptionAssertion)\n"
+        "                            ]\n"
+        "                        continue\n"
+        "                    self.__remove_non_holding_assertions(test, result)\n",
+    ),
+]
+
+
 def _patched_namespace(module, replacements):
     from pathlib import Path
 
@@ -384,6 +407,14 @@ def _fix_minimizer():
     pp.ForwardIterativeMinimizationVisitor.visit_default_test_case = ns["ForwardIterativeMinimizationVisitor"].visit_default_test_case
     pp.BackwardIterativeMinimizationVisitor.visit_default_test_case = ns["BackwardIterativeMinimizationVisitor"].visit_default_test_case
     pp.CombinedMinimizationVisitor._minimize_statements_across_test_suite = ns["CombinedMinimizationVisitor"]._minimize_statements_across_test_suite
+    pp._directly_asserted_variables = ns["_directly_asserted_variables"]  # used by the live get_assertion_protected_variables
+
+
+def _fix_filter():
+    import pynguin.assertion.assertiongenerator as ag
+
+    ns = _patched_namespace(ag, FILTER_PATCH)
+    ag.AssertionGenerator._add_assertions = ns["AssertionGenerator"]._add_assertions
 
 
 def _fix_deserializer():
@@ -412,6 +443,7 @@ BREAKS = {
     "fix_needs_pytest": _fix_needs_pytest,
     "fix_minimizer": _fix_minimizer,
     "fix_deserializer": _fix_deserializer,
+    "fix_filter": _fix_filter,
 }
 
 
